@@ -47,3 +47,20 @@ pub fn handle_state(toks: &[&str]) -> String {
         Err(e) => err_str(&e),
     }
 }
+
+// compile <level> <prog>: compile::build_source as wired in app/build.rs; result = hex of the emitted Rust source
+pub fn handle_compile(toks: &[&str]) -> String {
+    use hyeong::core::compile;
+    use hyeong::core::state::UnOptState;
+    let level: u8 = toks[0].parse().unwrap();
+    let code = parse::parse(if toks.len() > 1 { text_of(toks[1]) } else { String::new() });
+    let src = if level >= 1 {
+        match optimize::optimize(code, level) {
+            Ok((state, opt)) => compile::build_source(state, &opt, level),
+            Err(e) => return err_str(&e),
+        }
+    } else {
+        compile::build_source(UnOptState::new(), &code, level)
+    };
+    format!("src:{}", src.bytes().map(|b| format!("{:02x}", b)).collect::<String>())
+}
